@@ -498,6 +498,18 @@ def main(rec):
             if wk is not None and not isinstance(wk, dict):
                 sp["must_reject"] = "fields-kind:%s:%s%s" % (where.split(":")[0], type(wk).__name__, "" if wk else ":falsy")
             jobs.append((sp, False))
+    # texts that are parsed as declarations but are empty or blank (decl, template instantiation, generic variant, typedef)
+    for ti, text in enumerate(["", " ", "\n", "\t", ";", "  ;  "]):
+        variants = [("decl", [{"decl": text}]),
+                    ("instantiation", [{"decl": "template<typename T> void tfn%d(T a)" % ti, "cxx_template": [{"instantiation": text}]}]),
+                    ("generic-decl", [{"decl": "void gfn%d(double a)" % ti, "fortran_generic": [{"decl": text}, {"decl": "(float a)"}]}]),
+                    ("class-member", [{"decl": "class EmptyC%d" % ti, "declarations": [{"decl": text}]}]),
+                    ("namespace-member", [{"decl": "namespace emptyns%d" % ti, "declarations": [{"decl": text}]}])]
+        for where, decls_ in variants:
+            sp = gen.spec_for(pipeline_case("emptytext", decls_), "emptytext:%s:%r" % (where, text))
+            sp["what"] = "%s text %r" % (where, text)
+            sp["mech_tag"] = "empty-or-blank-%s" % where
+            jobs.append((sp, False))
     # documented features combined in one declaration: never an internal failure
     for what, ent in DOC_COMBOS:
         for wraps in (("c", "fortran"), ("python",), ("lua",)):
